@@ -578,7 +578,7 @@ def emit_coq(res, path, known_ids=()):
         out.append("   %5d %-6s %-22s %6d  %s" % (n["id"], tag, n["section"], n["size"], coq_name(n).replace("(*", "( *").replace("*)", "* )")))
     out.append("*)")
     out.append("From Coq Require Import List PArith Bool.")
-    out.append("From A1 Require Import Conc.Reach Conc.ReachProofs.")
+    out.append("From A1 Require Import Conc.Reach Conc.ReachProofs Conc.Interleave Conc.Link.")
     out.append("Import ListNotations.")
     out.append("Local Open Scope positive_scope.")
     out.append("Definition g_edges : graph :=\n  %s." % elist(edges))
@@ -598,6 +598,13 @@ def emit_coq(res, path, known_ids=()):
     out.append("Theorem statics_meaning : forall x, path g_edges g_entries x -> flagged g_facts x = false.")
     out.append("Proof. exact (no_writable_reachable_sound g_facts statics_ok). Qed.")
     out.append("Print Assumptions statics_meaning.")
+    out.append("")
+    out.append("(* and, under the footprint assumption spelled out in Conc/Link.v, the interleaving theorem applies to")
+    out.append("   every program of codec calls over this build of the library *)")
+    out.append("Definition statics_conclusion :=")
+    out.append("  fun cls obj_of calls m0 H1 H2 H3 => statics_imply_irrelevant g_facts cls obj_of calls m0 H1 H2 H3 statics_ok.")
+    out.append("Check statics_conclusion.")
+    out.append("Print Assumptions statics_conclusion.")
     open(path, "w").write("\n".join(out) + "\n")
     return dict(nodes=len(nodes), edges=len(edges), entries=len(entries), wsec=len(W), stored=len(stored), escaped=len(escaped), allowed=len(allowed))
 
